@@ -141,8 +141,12 @@ def run(chk):
                     else:
                         mabove += v
         if abs(popr.Ns_lost - nabove) > 5e-3 * nabove + 1.0:
-            chk.fail("stars lost equal the number of the IMF above the final turn-off mass", label, dict(Ns_lost=float(popr.Ns_lost), imf_above=nabove),
-                     bh_progenitors_span_imf_segments=bool(spans))
+            # listed finding: with ONE stellar bin the only active window of the right-hand side is stepped over by a single solver step
+            # (both the shortcut and the full model then report the untouched IMF)
+            one_bin_skipped = bool(nb.MS == 1 and float(popr.Ns_lost) == 0.0 and abs(float(full.Ns[0].sum()) - N0) <= 1e-9 * N0)
+            chk.fail("stars lost equal the number of the IMF above the final turn-off mass", label, dict(Ns_lost=float(popr.Ns_lost), imf_above=nabove,
+                                                                                                        full_model_stars_left=float(full.Ns[0].sum())),
+                     bh_progenitors_span_imf_segments=bool(spans), single_bin_window_skipped=one_bin_skipped)
         if abs(popr.Ns_lost - popr.N.sum()) > 5e-3 * nabove + 1.0:
             chk.fail("stars lost equal BHs formed", label, dict(Ns_lost=float(popr.Ns_lost), N_BH=float(popr.N.sum())))
         if popr.Ms_lost < popr.M.sum() * (1 - 1e-9):
@@ -303,6 +307,8 @@ def classify(f):
             "BH number and mass per bin equal those of the full model evolved to the same age with full retention",
             "stars lost equal the number of the IMF above the final turn-off mass"):
         return "bh_slope_last_segment"
+    if f.get("single_bin_window_skipped") and cl == "stars lost equal the number of the IMF above the final turn-off mass":
+        return "single_bin_window_stepped_over"
     if f.get("ms_lost_untruncated"):
         return "ms_lost_untruncated"
     if cl == "a population can be built directly from any BH mass function" and f.get("first_break_above_wd"):
